@@ -1012,9 +1012,26 @@ def pattern_i8toi32(self, tree, c0):
 @arm_isa.pattern("reg", "U32TOU8(reg)", size=0)
 @arm_isa.pattern("reg", "I32TOI8(reg)", size=0)
 @arm_isa.pattern("reg", "I32TOU8(reg)", size=0)
+@arm_isa.pattern("reg", "U16TOI8(reg)", size=0)
+@arm_isa.pattern("reg", "U16TOU8(reg)", size=0)
+@arm_isa.pattern("reg", "I16TOI8(reg)", size=0)
+@arm_isa.pattern("reg", "I16TOU8(reg)", size=0)
+@arm_isa.pattern("reg", "U8TOI16(reg)", size=0)
+@arm_isa.pattern("reg", "U8TOU16(reg)", size=0)
 def pattern_i32toi8(context, tree, c0):
     d2 = context.new_reg(ArmRegister)
     context.emit(AndImm(d2, c0, 0xFF))
+    return d2
+
+
+@arm_isa.pattern("reg", "I8TOI16(reg)", size=8)
+@arm_isa.pattern("reg", "I8TOU16(reg)", size=8)
+def pattern_i8toi16(context, tree, c0):
+    """Sign extend the low 8 bits"""
+    d = context.new_reg(ArmRegister)
+    context.emit(Mov2(d, c0, ShiftLsl(24)))
+    d2 = context.new_reg(ArmRegister)
+    context.emit(Mov2(d2, d, ShiftAsr(24)))
     return d2
 
 
